@@ -185,6 +185,11 @@ func genCaseFor(rt *rapid.T, td jgen.TypeDesc, typ reflect.Type) Case {
 		r := jgen.GenValue(rt, typ, jgen.ValOpts{MaxLen: 3, Avoid: map[string]bool{"badraw": true}})
 		c.Init = &r
 	}
+	// when the target is an interface holding a non-nil pointer the documents are aimed at the pointee
+	docType := typ
+	if c.Init != nil && typ.Kind() == reflect.Interface && c.Init.Dyn != nil && c.Init.Dyn.K == "ptr" && len(c.Init.Elems) == 1 && !c.Init.Elems[0].Nil {
+		docType = c.Init.Dyn.Elem.Type()
+	}
 	n := rapid.SampledFrom([]int{1, 1, 1, 2, 2, 3, 4}).Draw(rt, "ndocs")
 	do := jgen.DocOpts{Avoid: map[string]bool{}}
 	for _, a := range avoidWhileKnown() {
@@ -195,16 +200,16 @@ func genCaseFor(rt *rapid.T, td jgen.TypeDesc, typ reflect.Type) Case {
 		k := rapid.IntRange(0, 9).Draw(rt, "dockind")
 		switch {
 		case k <= 5:
-			doc = jgen.GenDocFor(rt, typ, do)
+			doc = jgen.GenDocFor(rt, docType, do)
 			c.DocKind = "directed"
 		case k <= 7:
-			doc = jgen.Mutate(rt, jgen.GenDocFor(rt, typ, do))
+			doc = jgen.Mutate(rt, jgen.GenDocFor(rt, docType, do))
 			c.DocKind = "mutated"
 		case k == 8:
 			doc = jgen.GenDocument(rt, 3)
 			c.DocKind = "generic"
 		default:
-			doc = jgen.GenDocFor(rt, typ, do)
+			doc = jgen.GenDocFor(rt, docType, do)
 			if len(doc) > 0 {
 				doc = doc[:rapid.IntRange(0, len(doc)).Draw(rt, "cut")]
 			}
@@ -228,6 +233,70 @@ func TestUnmarshalDiff(t *testing.T) {
 	})
 }
 
+// TestHeldPointers: the target (or a field / element of it) is an interface
+// that already holds a non-nil pointer, which both libraries must decode
+// into, under every Decoder option (the options must reach the nested decode).
+func TestHeldPointers(t *testing.T) {
+	anyT, strT := jgen.TypeDesc{K: "any"}, jgen.TypeDesc{K: "string"}
+	tg := "n,omitempty"
+	pointees := []jgen.TypeDesc{
+		{K: "struct", Fields: []jgen.FieldDesc{{Name: "A", T: jgen.TypeDesc{K: "int"}}, {Name: "N", Tag: &tg, T: anyT}, {Name: "M", T: jgen.TypeDesc{K: "map", Key: &strT, Elem: &anyT}}}},
+		{K: "map", Key: &strT, Elem: &anyT}, {K: "slice", Elem: &anyT}, anyT, {K: "int"}, {K: "@Rec"}, {K: "@EmbA"}, {K: "number"}, {K: "float64"},
+	}
+	wrappers := []func(jgen.TypeDesc) jgen.TypeDesc{
+		func(a jgen.TypeDesc) jgen.TypeDesc { return a },
+		func(a jgen.TypeDesc) jgen.TypeDesc {
+			return jgen.TypeDesc{K: "struct", Fields: []jgen.FieldDesc{{Name: "X", T: a}, {Name: "Y", T: jgen.TypeDesc{K: "int"}}}}
+		},
+		func(a jgen.TypeDesc) jgen.TypeDesc { return jgen.TypeDesc{K: "slice", Elem: &a} },
+		func(a jgen.TypeDesc) jgen.TypeDesc { return jgen.TypeDesc{K: "map", Key: &strT, Elem: &a} },
+	}
+	evid.Check(t, "HeldPointers", 3000, func(rt *rapid.T) {
+		pt := rapid.SampledFrom(pointees).Draw(rt, "pointee")
+		wi := rapid.IntRange(0, len(wrappers)-1).Draw(rt, "wrapper")
+		td := wrappers[wi](anyT)
+		typ := td.Type()
+		ptr := jgen.TypeDesc{K: "ptr", Elem: &pt}
+		held := jgen.Recipe{Dyn: &ptr, Elems: []jgen.Recipe{{Elems: []jgen.Recipe{jgen.GenValue(rt, pt.Type(), jgen.ValOpts{MaxLen: 3, Avoid: map[string]bool{"badraw": true}})}}}}
+		var init jgen.Recipe
+		var pre, post string
+		switch wi {
+		case 0:
+			init = held
+		case 1:
+			init = jgen.Recipe{Elems: []jgen.Recipe{held, {I: 5}}}
+			pre, post = `{"Y":1,"X":`, `}`
+		case 2:
+			init = jgen.Recipe{Elems: []jgen.Recipe{held, held}}
+			pre, post = `[`, `]`
+		default:
+			init = jgen.Recipe{Keys: []jgen.Recipe{{S: []byte("k")}}, Elems: []jgen.Recipe{held}}
+			pre, post = `{"k":`, `}`
+		}
+		c := Case{Type: td, Init: &init, DocKind: "held-pointer"}
+		switch rapid.IntRange(0, 3).Draw(rt, "api") {
+		case 0:
+			c.API = "Unmarshal"
+		case 1:
+			c.API = "Parse"
+		default:
+			c.API = "Decoder"
+			c.UseNum = rapid.Bool().Draw(rt, "usenum")
+			c.Disallow = rapid.Bool().Draw(rt, "disallow")
+		}
+		for n := rapid.IntRange(1, 2).Draw(rt, "ndocs"); n > 0; n-- {
+			var inner []byte
+			if rapid.IntRange(0, 3).Draw(rt, "generic") == 0 {
+				inner = jgen.GenDocument(rt, 2)
+			} else {
+				inner = jgen.GenDocFor(rt, pt.Type(), jgen.DocOpts{Wrong: 1})
+			}
+			c.Docs = append(c.Docs, []byte(pre+string(inner)+post))
+		}
+		runOne(rt, "HeldPointers", c, typ)
+	})
+}
+
 func runOne(rt *rapid.T, test string, c Case, typ reflect.Type) {
 	evid.Eval(1)
 	f, inf := checkCaseInfo(c)
@@ -236,6 +305,9 @@ func runOne(rt *rapid.T, test string, c Case, typ reflect.Type) {
 	evid.Label(fmt.Sprintf("history.len%d", len(c.Docs)))
 	if c.Init != nil {
 		evid.Label("target.prepopulated")
+		if c.Init.Dyn != nil && c.Init.Dyn.K == "ptr" && len(c.Init.Elems) == 1 && !c.Init.Elems[0].Nil {
+			evid.Label("target.interface-holding-non-nil-pointer")
+		}
 	}
 	if inf.accepts > 0 {
 		evid.LabelN("outcome.accept/accept", inf.accepts)
